@@ -326,8 +326,31 @@ def part_a(ck, hist, tag, pack=None, model=True):
     root = os.path.join(ck.tmp, 'a-' + tag)
     if os.path.exists(root):
         shutil.rmtree(root)
+    probes = []
+    oids0, tids0 = c01.history_oids_tids(hist)
+
+    def pack_probe(rec, ev):
+        """a read-only instance opened while the file is being packed"""
+        from ZODB.FileStorage import FileStorage
+        before = vfs.snapshot(root)
+        rec.readonly_guard = True
+        try:
+            ro = FileStorage(os.path.join(root, 'Data.fs'), read_only=True)
+            try:
+                probes.append((ev[:3], L.dump_storage(ro, oids0, tids0), None))
+            finally:
+                ro.close()
+        except Exception as e:
+            probes.append((ev[:3], None, L.ename(e) + ' ' + str(e)[:120]))
+        finally:
+            rec.readonly_guard = False
+        bad = [x for x in rec.events if x[0] == 'VIOLATED-RO']
+        if bad or vfs.snapshot(root) != before:
+            probes.append((ev[:3], None, 'MUTATED'))
+            rec.events[:] = [x for x in rec.events if x[0] != 'VIOLATED-RO']
     try:
-        rr = L.run_history(hist, root, pack_after=pack, referencesf=referencesf)
+        rr = L.run_history(hist, root, pack_after=pack, referencesf=referencesf,
+                           pack_probe=pack_probe if pack is not None else None)
     except Exception as e:
         return dict(violations=[('C09:history-raised', 'executing the history%s raised %s: %s' % (
             ' and the pack' if pack is not None else '', type(e).__name__, str(e)[:160]),
@@ -368,6 +391,31 @@ def part_a(ck, hist, tag, pack=None, model=True):
             vfs.apply_events(tmpi, [evs[k]], nbytes_last=nb)
             data = tmpi['Data.fs']
         targets.append(('cut%d.%s' % (k, nb), data, k, r, True, cc))
+    if probes:
+        # read-only opens DURING the pack show the unpacked or the packed database, and touch nothing
+        refs = []
+        for b in (rr.final, rr.packed):
+            rd = os.path.join(ck.tmp, 'packref')
+            L.write_dir(rd, {'Data.fs': b})
+            from ZODB.FileStorage import FileStorage as _FS
+            r_ = _FS(os.path.join(rd, 'Data.fs'), read_only=True)
+            try:
+                refs.append(L.canon(L.dump_storage(r_, oids0, tids0)))
+            finally:
+                r_.close()
+        for ev, dump_, err in probes:
+            ck.case([hid, 'ro-during-pack', list(map(str, ev))], True, None)
+            ck.count('ro-during-pack')
+            if err == 'MUTATED':
+                viol.append(('C09:ro-mutated:open', 'a read-only open while the file is being packed (before %s) modified '
+                             'the directory' % (ev,), dict(history=hist, pack=pack, target='during-pack', variant=str(ev))))
+            elif err:
+                viol.append(('C09:ro-open-raised', 'a read-only open while the file is being packed (before %s) raised %s'
+                             % (ev, err), dict(history=hist, pack=pack, target='during-pack', variant=str(ev))))
+            elif L.canon(dump_) not in refs:
+                viol.append(('C09:ro-during-pack-differs', 'a read-only open while the file is being packed (before %s) '
+                             'shows neither the unpacked nor the packed database' % (ev,),
+                             dict(history=hist, pack=pack, target='during-pack', variant=str(ev))))
     pack_variants = {}
     if rr.packed is not None:
         targets.append(('packed', rr.packed, len(rr.events), nret_total, False, None))
@@ -621,10 +669,16 @@ def part_a(ck, hist, tag, pack=None, model=True):
             for e in ends:
                 if e != pos0:
                     pert.append((e, items))
-            for ppos, pitems in pert[:12]:
-                got = open_perturbed(wd, rr.final, ppos, pitems, oids, tids)
+            pert = [(rr.final, -1, pp, pi) for pp, pi in pert[:12]]
+            # an index NEWER than the file (the file as it was after an earlier commit, the newest index)
+            rets = [i for i, e in enumerate(can) if e[0] == 'ret']
+            for j in sorted({len(rets) - 1, len(rets) // 2}):
+                if 0 < j <= len(rets) and j < len(ends) + 1 and j - 1 < len(ends):
+                    pert.append((rr.final[:ends[j - 1]], rets[j - 1] + 1, pos0, items))
+            for pdata_, pcut, ppos, pitems in pert:
+                got = open_perturbed(wd, pdata_, ppos, pitems, oids, tids)
                 model_lines.append('setidx %d %s' % (ppos, ','.join('%016x:%d' % kv for kv in pitems) or '-'))
-                model_lines.append('open %d 0 -1 0' % len(slot_of))
+                model_lines.append('open %d 0 %d 0' % (len(slot_of), pcut))
                 slot_of['pert%d' % len(slot_of)] = len(slot_of)
                 model_checks[len(model_lines) - 1] = ('open', got[0], got[1]) if isinstance(got, tuple) else got
                 ck.count('perturbed-index-used=%s' % (got[0][5] if isinstance(got, tuple) else 'err'))
